@@ -26,6 +26,7 @@ pub fn dispatch(cmd: &str, c: &Value) -> Value {
         "queue_seq" => queue_seq(c),
         "queue_conc" => queue_conc(c),
         "catalogue" => catalogue(c),
+        "details_batches" => details_batches(c),
         "varint" => varint(c),
         "collvarint" => collvarint(c),
         "stream_names" => stream_names(c),
@@ -519,6 +520,55 @@ pub fn catalogue(c: &Value) -> Value {
     json!({ "ok": ok, "why": why, "samples": out })
 }
 
+/// C02(f): two metadata batches written by the real collection; the SECOND collection-details part is split and its
+/// varint streams are decoded here with an independent prefix-varint reader (no ragc decoding code).
+pub fn details_batches(c: &Value) -> Value {
+    use ragc_common::{Archive, CollectionV3};
+    let path = tmp_path("c02f");
+    let mut coll = CollectionV3::new();
+    coll.set_config(1000, 21, None);
+    let mut ar = Archive::new_writer();
+    ar.open(&path).unwrap();
+    coll.prepare_for_compression(&mut ar).unwrap();
+    for (sn, key) in [("s0", "b0"), ("s1", "b1")] {
+        coll.register_sample_contig(sn, "c").unwrap();
+        for (place, sg) in c[key].as_array().unwrap().iter().enumerate() {
+            coll.add_segment_placed(sn, "c", place, sg[0].as_u64().unwrap() as u32, sg[1].as_u64().unwrap() as u32, sg[2].as_bool().unwrap(), sg[3].as_u64().unwrap() as u32).unwrap();
+        }
+    }
+    coll.store_batch_sample_names(&mut ar).unwrap();
+    coll.store_contig_batch(&mut ar, 0, 1).unwrap();
+    coll.store_contig_batch(&mut ar, 1, 2).unwrap();
+    ar.flush_buffers().unwrap(); ar.close().unwrap();
+    let mut rd = Archive::new_reader(); rd.open(&path).unwrap();
+    let sid = rd.get_stream_id("collection-details").unwrap();
+    let (part, _) = rd.get_part_by_id(sid, 1).unwrap();
+    let _ = std::fs::remove_file(&path);
+    // independent prefix-varint reader (AGC collection_v3 rule)
+    fn rd_var(b: &[u8], pos: &mut usize) -> u32 {
+        let b0 = b[*pos] as u32;
+        let (n, v) = if b0 < 0x80 { (1, b0) }
+            else if b0 < 0xC0 { (2, (((b0 & 0x3F) << 8) | b[*pos + 1] as u32) + 128) }
+            else if b0 < 0xE0 { (3, (((b0 & 0x1F) << 16) | ((b[*pos + 1] as u32) << 8) | b[*pos + 2] as u32) + 128 + (1 << 14)) }
+            else if b0 < 0xF0 { (4, (((b0 & 0x0F) << 24) | ((b[*pos + 1] as u32) << 16) | ((b[*pos + 2] as u32) << 8) | b[*pos + 3] as u32) + 128 + (1 << 14) + (1 << 21)) }
+            else { (5, (((b[*pos + 1] as u32) << 24) | ((b[*pos + 2] as u32) << 16) | ((b[*pos + 3] as u32) << 8) | b[*pos + 4] as u32).wrapping_add(128 + (1 << 14) + (1 << 21) + (1 << 28))) };
+        *pos += n; v
+    }
+    let mut pos = 0usize;
+    let mut sizes = vec![];
+    for _ in 0..5 { let raw = rd_var(&part, &mut pos); let comp = rd_var(&part, &mut pos); sizes.push((raw, comp)); }
+    let mut streams: Vec<Vec<u32>> = vec![];
+    for (raw, comp) in sizes {
+        let data = zstd::decode_all(&part[pos..pos + comp as usize]).unwrap();
+        pos += comp as usize;
+        assert_eq!(data.len(), raw as usize);
+        let mut p = 0usize; let mut vals = vec![];
+        while p < data.len() { vals.push(rd_var(&data, &mut p)); }
+        streams.push(vals);
+    }
+    json!({ "batch1": {"counts": streams[0], "group": streams[1], "in_group": streams[2], "len": streams[3], "rev": streams[4]} })
+}
+
 // ---------------------------------------------------------------- C06 / C05 bounded priority queue
 pub fn queue_seq(c: &Value) -> Value {
     use ragc_core::memory_bounded_queue::MemoryBoundedQueue;
@@ -804,7 +854,7 @@ pub fn pack_step(c: &Value) -> Value {
     // compressible, pairwise distinct pending deltas (so that real ZSTD stores the pack compressed)
     let pending: Vec<Vec<u8>> = (0..npend).map(|j| { let mut v = vec![1u8; 30]; v.push(2 + (j as u8 % 2)); v.push(j as u8 / 2 + 4); v }).collect();
     let news: Vec<Vec<u8>> = c["segs"].as_array().unwrap().iter().map(|x| bytes(x)).collect();
-    let (parts, regs) = ragc_core::agc_compressor::verif_hooks::flush_pack_step(gid, p, pending, first_id, news).unwrap();
+    let (parts, regs, state) = ragc_core::agc_compressor::verif_hooks::flush_pack_step_state(gid, p, pending, first_id, news).unwrap();
     let mut ok = parts.len() == 1; let mut why = String::new();
     if let Some((_sid, data, meta)) = parts.first() {
         let unpacked = if *meta == 0 { data.clone() } else { let mut d = data.clone(); let m = d.pop().unwrap(); decompress_segment_with_marker(&d, m).unwrap() };
@@ -813,5 +863,6 @@ pub fn pack_step(c: &Value) -> Value {
         if nsep != 50 { ok = false; why = format!("{} entries in a full pack", nsep); }
         if first_raw_pack && !(unpacked.len() >= 2 && unpacked[0] == 0x7f && unpacked[1] == 0xFF) { ok = false; why = "placeholder missing".into(); }
     } else { why = format!("{} parts", parts.len()); }
-    json!({ "ok": ok, "why": why, "registrations": regs })
+    json!({ "ok": ok, "why": why, "registrations": regs,
+            "state": {"pending_ids": state.0, "pending": state.1, "segments_written": state.2, "placeholder": state.3, "segments_left": state.4} })
 }
